@@ -3,8 +3,10 @@ package impl
 import (
 	"encoding/json"
 	"fmt"
+	"reflect"
 	"strconv"
 	"strings"
+	"sync"
 
 	lucene "github.com/grindlemire/go-lucene"
 	"github.com/grindlemire/go-lucene/pkg/driver"
@@ -61,7 +63,16 @@ func DescribedMap(desc string) map[expr.Operator]driver.RenderFN {
 		}
 		m[arg] = TraceFn(arg)
 	case "override-inplace":
-		// the override written into the map of a driver returned by NewPostgresDriver (not into a copy of it)
+		// the override written into the map of a driver returned by NewPostgresDriver (not into a copy of it) — unless
+		// driver instances turn out to share their table (then writing to it from several workers would be a fatal
+		// "concurrent map writes" that kills the process; the sharing itself is reported by the isolation probe)
+		if !tablesIndependent() {
+			for k, v := range driver.NewPostgresDriver().RenderFNs {
+				m[k] = v
+			}
+			m[arg] = TraceFn(arg)
+			return m
+		}
 		d := driver.NewPostgresDriver()
 		d.RenderFNs[arg] = TraceFn(arg)
 		return d.RenderFNs
@@ -72,6 +83,23 @@ func DescribedMap(desc string) map[expr.Operator]driver.RenderFN {
 		m[arg] = func(left, right string) (string, error) { return "", fmt.Errorf("failing render function") }
 	}
 	return m
+}
+
+var (
+	indepOnce sync.Once
+	indep     bool
+)
+
+// tablesIndependent reports (without writing to any table) whether two drivers returned by NewPostgresDriver have
+// distinct function tables, both distinct from driver.Shared.
+func tablesIndependent() bool {
+	indepOnce.Do(func() {
+		a := reflect.ValueOf(driver.NewPostgresDriver().RenderFNs).Pointer()
+		b := reflect.ValueOf(driver.NewPostgresDriver().RenderFNs).Pointer()
+		s := reflect.ValueOf(driver.Shared).Pointer()
+		indep = a != b && a != s && b != s
+	})
+	return indep
 }
 
 // RunRender is Base{RenderFNs: m}.Render(e) and .RenderParam(e) in canonical text, tab separated.
@@ -173,6 +201,11 @@ func DriverIsolation() (fails []string) {
 			fails = append(fails, fmt.Sprintf("panic: %v", r))
 		}
 	}()
+	if !tablesIndependent() {
+		// judged without writing to any table: a write to a shared table while other workers render would be a fatal
+		// "concurrent map writes" that kills the whole process
+		return []string{"NewPostgresDriver() instances share one function table (with each other or with driver.Shared): customising one driver instance changes every other driver and ToPostgres"}
+	}
 	base1, _ := lucene.ToPostgres("a:b")
 	_, errF := lucene.ToPostgres("a:b~2 AND c")
 	d := driver.NewPostgresDriver()
